@@ -634,6 +634,9 @@ func (g *gen) funcType(d int) *Ty {
 	return f
 }
 
+// tags that make the XML encoder look through the field's pointers
+var xmlIndirectTags = []string{`xml:",comment"`, `xml:",innerxml"`, `xml:",cdata"`, `xml:",any"`, `xml:"a,attr,omitempty"`, `xml:",comment,omitempty"`}
+
 var fieldTags = []string{"", "", "", `json:"a"`, `json:"a,omitempty"`, `json:",string"`, `json:"-"`, `xml:"a,attr"`, `json:"a" xml:"b"`, `json:"a,omitempty,omitempty"`, `xml:",any"`, `json:"a" json:"b"`, `yaml:"x"`, `json:"a,string,omitempty"`, `xml:"ns name"`, `choice:"a" choice:"b"`, `xml:"a>b,attr"`, `xml:",chardata,attr"`}
 
 func (g *gen) structType(d int, exported bool) *Ty {
@@ -647,7 +650,14 @@ func (g *gen) structType(d int, exported bool) *Ty {
 		if g.chance(5, "blankfield") {
 			name = "_"
 		}
-		s.Fields = append(s.Fields, Field{Name: name, T: g.anyType(d), Tag: pick(g, "tag", fieldTags...)})
+		tag := pick(g, "tag", fieldTags...)
+		// recorded finding: the XML encoder model follows self-referential pointer types without end for
+		// comment and innerxml fields; excluded by not drawing those tags
+		if g.chance(10, "xmlindirect") && g.include("no-termination") {
+			tag = pick(g, "xmltag", xmlIndirectTags...)
+			g.feat("xml_indirect_tag")
+		}
+		s.Fields = append(s.Fields, Field{Name: name, T: g.anyType(d), Tag: tag})
 	}
 	return s
 }
